@@ -229,4 +229,203 @@ theorem C09_copy (s : Scale) : copy s = s ∧ ∀ (ε f : Rat) (rd : Option Nat)
 
 example : copy [(0, 1/4), (10, 1/2)] = [(0, 1/4), (10, 1/2)] := (C09_copy _).1
 
+/-! ## round 2 -/
+
+/-- `combine_bracket(rate, lo, hi)` — the step `add_tax_scale` is made of, also callable directly, `lo` defaulting
+to 0 and `hi` to "none" — adds `rate` on `[lo, hi)` (on `[lo, ∞)` without `hi`) to the tax of every base, for every
+sorted receiver (empty, or starting above `lo`, included) -/
+theorem C09_combine_bracket (ε f : Rat) (hf : 0 < f + ε) (s : Scale) (hs : StrictSorted s) (rate lo : Rat) (hi : Option Rat)
+    (hlh : ∀ h ∈ hi, lo < h ∧ h ≠ 0) (x : Rat) :
+    calcMR ε f none (combineBracket s rate lo hi) x
+      = calcMR ε f none s x + rate * interLen ((f + ε) * lo) (hi.map (fun h => (f + ε) * h)) x ∧
+    StrictSorted (combineBracket s rate lo hi) := by
+  obtain ⟨e1, e2⟩ := combineBracket_spec (thrMap ε f none) s hs rate lo hi hlh x
+  refine ⟨?_, e2⟩
+  rw [calc_eq_incr ε f hf _ e2, calc_eq_incr ε f hf s hs, e1]
+  congr 1
+  cases hi with
+  | none =>
+    simp only [Option.map, thrMap_none, pp, interLen]
+    congr 1
+    by_cases h : x ≤ (f + ε) * lo
+    · rw [if_pos h, max_eq_right (by linarith)]; ring
+    · rw [if_neg h, max_eq_left (by linarith)]; ring
+  | some h =>
+    obtain ⟨hlt, _⟩ := hlh h rfl
+    have := mul_lt_mul_of_pos_left hlt hf
+    simp only [Option.map, thrMap_none, interLen]
+    congr 1
+    unfold pp
+    grind
+
+example : calcMR 0 1 none (combineBracket [(50, 1/4), (100, 1/2)] (1/8) 25 (some 75)) 60
+    = calcMR 0 1 none [(50, 1/4), (100, 1/2)] 60 + 1/8 * interLen ((1 + 0) * 25) ((some (75 : Rat)).map (fun h => (1 + 0) * h)) 60 :=
+  (C09_combine_bracket 0 1 (by decide +kernel) _ (by decide +kernel) _ _ _
+    (by intro h hh; simp at hh; subst hh; decide +kernel) 60).1
+example : combineBracketD [(0, 1/4), (100, 1/2)] (1/8) none none = [(0, 3/8), (100, 5/8)] ∧
+    combineBracket [] (1/8) 25 none = [(25, 1/8)] := by decide +kernel
+
+/-- as tax functions, combination is commutative … -/
+theorem C09_combine_comm (ε f : Rat) (hf : 0 < f + ε) (a b : Scale) (ha : StrictSorted a) (hb : StrictSorted b)
+    (hna : ∀ c ∈ a, 0 ≤ c.1) (hnb : ∀ c ∈ b, 0 ≤ c.1) (x : Rat) :
+    calcMR ε f none (addTaxScale a b) x = calcMR ε f none (addTaxScale b a) x := by
+  rw [(C09_combine_sum ε f hf a b ha hb hnb x).1, (C09_combine_sum ε f hf b a hb ha hna x).1]; ring
+
+/-- bracket splitting keeps exactly the thresholds of the two scales -/
+theorem C09_combine_thresholds (a b : Scale) (ha : StrictSorted a) (hb : StrictSorted b) (hnn : ∀ c ∈ b, 0 ≤ c.1) (u : Rat) :
+    hasT (addTaxScale a b) u = (hasT a u || hasT b u) :=
+  addTaxScaleGo_hasT b hb (tailNZ_of_nonneg hb hnn) u a ha
+
+example : thresholds (addTaxScale [(0, 1/4), (100, 1/2)] [(50, 1/8), (100, 1/8), (300, 1)]) = [0, 50, 100, 300] := by decide +kernel
+
+/-- … and associative -/
+theorem C09_combine_assoc (ε f : Rat) (hf : 0 < f + ε) (a b c : Scale) (ha : StrictSorted a) (hb : StrictSorted b)
+    (hc : StrictSorted c) (hnb : ∀ d ∈ b, 0 ≤ d.1) (hnc : ∀ d ∈ c, 0 ≤ d.1) (x : Rat) :
+    calcMR ε f none (addTaxScale (addTaxScale a b) c) x = calcMR ε f none (addTaxScale a (addTaxScale b c)) x := by
+  obtain ⟨e1, s1⟩ := C09_combine_sum ε f hf a b ha hb hnb x
+  obtain ⟨e2, s2⟩ := C09_combine_sum ε f hf b c hb hc hnc x
+  have hn2 : ∀ d ∈ addTaxScale b c, 0 ≤ d.1 := by
+    intro d hd
+    have h1 : hasT (addTaxScale b c) d.1 = true := hasT_iff.mpr ⟨d, hd, rfl⟩
+    rw [C09_combine_thresholds b c hb hc hnc, Bool.or_eq_true] at h1
+    rcases h1 with h | h
+    · obtain ⟨e, he, ee⟩ := hasT_iff.mp h; rw [← ee]; exact hnb e he
+    · obtain ⟨e, he, ee⟩ := hasT_iff.mp h; rw [← ee]; exact hnc e he
+  rw [(C09_combine_sum ε f hf _ c s1 hc hnc x).1, e1, (C09_combine_sum ε f hf a _ ha s2 hn2 x).1, e2]; ring
+
+example : calcMR 0 1 none (addTaxScale (addTaxScale [(0, 1/4)] [(50, 1/8)]) [(20, 1/2), (70, 0)]) 100
+    = calcMR 0 1 none (addTaxScale [(0, 1/4)] (addTaxScale [(50, 1/8)] [(20, 1/2), (70, 0)])) 100 :=
+  C09_combine_assoc 0 1 (by decide +kernel) _ _ _ (by decide +kernel) (by decide +kernel) (by decide +kernel)
+    (by decide +kernel) (by decide +kernel) 100
+example : calcMR 0 1 none (addTaxScale [(100, 1/8)] [(0, 1/4), (30, 1/2)]) 50 = calcMR 0 1 none (addTaxScale [(0, 1/4), (30, 1/2)] [(100, 1/8)]) 50 :=
+  C09_combine_comm 0 1 (by decide +kernel) _ _ (by decide +kernel) (by decide +kernel) (by decide +kernel) (by decide +kernel) 50
+
+/-! ### scalings with rounding, vectors, descriptive attributes -/
+
+/-- `multiply_thresholds(k, decimals=d)`: every threshold is the rounded product, the rates are untouched, the
+brackets stay in (weak) order for `k > 0` — so the result still computes its textbook definition (`C08_marginal_rate_def`) -/
+theorem C09_mul_thresholds_rounded (k : Rat) (hk : 0 < k) (d : Nat) (s : Scale) (hs : StrictSorted s) :
+    thresholds (multiplyThresholds s k (some d)) = (thresholds s).map (fun t => roundDec d (t * k)) ∧
+    rates (multiplyThresholds s k (some d)) = rates s ∧
+    WSorted (multiplyThresholds s k (some d)) ∧
+    ∀ (ε f : Rat), 0 < f + ε → ∀ x, calcMR ε f none (multiplyThresholds s k (some d)) x
+      = specMR none (mapT (fun t => (f + ε) * t) (multiplyThresholds s k (some d))) x := by
+  have hw : WSorted (multiplyThresholds s k (some d)) := by
+    have : multiplyThresholds s k (some d) = mapT (fun t => roundDec d (t * k)) s := rfl
+    rw [this]
+    exact mapT_wsorted (fun a b hab => roundDec_mono d (mul_le_mul_of_nonneg_right hab hk.le)) hs.wsorted
+  refine ⟨by simp [thresholds, multiplyThresholds, rnd], by simp [rates, multiplyThresholds], hw, ?_⟩
+  intro ε f hf x
+  unfold calcMR
+  rw [decide_eq_true hf]
+  exact clipSum_eq_specMR none _ (mapT_wsorted (fun a b hab => by
+    simp only [thrMap_none]; exact mul_le_mul_of_nonneg_left hab hf.le) hw) x
+
+example : multiplyThresholds [(0, 1/16), (1, 1/4), (3, 1/2), (17, 1)] (1/8) (some 2) = [(0, 1/16), (3/25, 1/4), (19/50, 1/2), (53/25, 1)] := by
+  decide +kernel
+
+/-- the inverse on a vector of gross amounts: element by element back to the gross amount -/
+theorem C09_inverse_vector (r0 : Rat) (rest : Scale) (hs : StrictSorted ((0, r0) :: rest))
+    (hr : ∀ c ∈ (0, r0) :: rest, c.2 < 1) (xs : List Rat) (hx : ∀ x ∈ xs, 0 ≤ x) :
+    ∃ inv, inverse ((0, r0) :: rest) = .ok inv ∧
+      calcMRVec 0 1 none inv (List.zipWith (· - ·) xs (calcMRVec 0 1 none ((0, r0) :: rest) xs)) = xs := by
+  obtain ⟨inv, h1, _⟩ := C09_inverse r0 rest hs hr 0 (le_refl 0)
+  refine ⟨inv, h1, ?_⟩
+  have hv : ∀ (s : Scale) (ys : List Rat), calcMRVec 0 1 none s ys = ys.map (calcMR 0 1 none s) := by
+    intro s ys; unfold calcMRVec calcMR; exact clipSumVec_eq_map _ _ _ _
+  rw [hv, hv]
+  induction xs with
+  | nil => rfl
+  | cons x xs ih =>
+    simp only [List.map_cons, List.zipWith_cons_cons]
+    obtain ⟨inv', h1', h2'⟩ := C09_inverse r0 rest hs hr x (hx x List.mem_cons_self)
+    rw [h1] at h1'
+    injection h1' with e
+    rw [e, h2']
+    rw [← e, ih (fun y hy => hx y (List.mem_cons_of_mem _ hy))]
+
+example : ∃ inv, inverse ((0, 1/4) :: [(100, 1/2)]) = .ok inv ∧
+    calcMRVec 0 1 none inv (List.zipWith (· - ·) [0, 40, 200] (calcMRVec 0 1 none ((0, 1/4) :: [(100, 1/2)]) [0, 40, 200])) = [0, 40, 200] :=
+  C09_inverse_vector _ _ (by decide +kernel) (by
+    intro c hc; simp at hc; rcases hc with e | e <;> subst e <;> decide +kernel) _ (by decide +kernel)
+
+/-- descriptive attributes: every operation that returns a new scale carries `option` and `unit` over; the name is
+kept by `copy`, `scale_tax_scales`, `to_average`, `to_marginal` (a scale's name is never empty) and by the multiplications
+without a `new_name`, replaced by a non-empty `new_name`, and `inverse` appends a prime; in place a `new_name` is refused -/
+theorem C09_meta (m : Meta) (hname : m.name ≠ "") :
+    metaCopy m = m ∧ metaScaleTaxScales m = .ok m ∧ metaConvert m = m ∧
+    (metaInverse m).option = m.option ∧ (metaInverse m).unit = m.unit ∧ (metaInverse m).name = m.name ++ "'" ∧
+    metaMultiply m false none = .ok m ∧ metaMultiply m false (some "") = .ok m ∧
+    (∀ n, n ≠ "" → metaMultiply m false (some n) = .ok ⟨n, m.option, m.unit⟩) ∧
+    metaMultiply m true none = .ok m ∧ (∀ n, ∃ e, metaMultiply m true (some n) = .error e) := by
+  obtain ⟨name, option, unit⟩ := m
+  simp only at hname
+  have hq : (name ++ "'") ≠ "" := by
+    intro h
+    have := congrArg String.length h
+    simp at this
+  refine ⟨rfl, rfl, ?_, rfl, rfl, ?_, ?_, ?_, ?_, rfl, fun n => ⟨_, rfl⟩⟩
+  · simp [metaConvert, metaInit, strOr, hname]
+  · simp [metaInverse, metaInit, strOr, hq]
+  · simp [metaMultiply, metaInit, strOr, hname]
+  · simp [metaMultiply, metaInit, strOr, hname]
+  · intro n hn
+    simp [metaMultiply, metaInit, strOr, hn]
+
+example : metaMultiply ⟨"scale", some "main-option", some "currency"⟩ false (some "renamed") = .ok ⟨"renamed", some "main-option", some "currency"⟩ ∧
+    metaInverse ⟨"scale", none, some "currency"⟩ = ⟨"scale'", none, some "currency"⟩ ∧
+    metaCombine (some "first-child") none = some ⟨"first-child", none, none⟩ ∧ metaInit none none none = ⟨"Untitled TaxScale", none, none⟩ := by
+  decide +kernel
+
+/-- `calc` with the threshold factor `k = f + ε > 0` is the textbook `calc` seen through the change of unit `x ↦ k·x` -/
+theorem C09_calc_factor_scaling (ε f : Rat) (hf : 0 < f + ε) (s : Scale) (x : Rat) :
+    calcMR ε f none s x = (f + ε) * calcMR 0 1 none s (x / (f + ε)) := by
+  rw [calcMR_textbook]
+  unfold calcMR
+  rw [decide_eq_true hf]
+  have hk : (f + ε) ≠ 0 := ne_of_gt hf
+  have hx : x = (f + ε) * (x / (f + ε)) := by field_simp
+  have hm : mapT (thrMap ε f none) s = mapT (fun t => (f + ε) * t) s := rfl
+  rw [hm]
+  conv => lhs; rw [hx]
+  exact clipSum_scaleT (f + ε) hf true s (x / (f + ε))
+
+/-- the inverse law holds with the code's perturbation too: for every `ε`, `f` with `f + ε > 0` (the same factor on both
+scales), `inverse()` of a scale starting at 0 with rates below one maps the net of every gross amount `x ≥ 0` back to `x` -/
+theorem C09_inverse_any_factor (ε f : Rat) (hf : 0 < f + ε) (r0 : Rat) (rest : Scale) (hs : StrictSorted ((0, r0) :: rest))
+    (hr : ∀ c ∈ (0, r0) :: rest, c.2 < 1) (x : Rat) (hx : 0 ≤ x) :
+    ∃ inv, inverse ((0, r0) :: rest) = .ok inv ∧
+      calcMR ε f none inv (x - calcMR ε f none ((0, r0) :: rest) x) = x := by
+  have hk : (f + ε) ≠ 0 := ne_of_gt hf
+  obtain ⟨inv, h1, h2⟩ := C09_inverse r0 rest hs hr (x / (f + ε)) (div_nonneg hx hf.le)
+  refine ⟨inv, h1, ?_⟩
+  rw [C09_calc_factor_scaling ε f hf inv, C09_calc_factor_scaling ε f hf ((0, r0) :: rest) x]
+  have e : (x - (f + ε) * calcMR 0 1 none ((0, r0) :: rest) (x / (f + ε))) / (f + ε)
+      = x / (f + ε) - calcMR 0 1 none ((0, r0) :: rest) (x / (f + ε)) := by
+    field_simp
+  rw [e, h2]
+  field_simp
+
+example : ∃ inv, inverse ((0, 1/4) :: [(100, 1/2)]) = .ok inv ∧
+    calcMR (1/4503599627370496) 1 none inv (200 - calcMR (1/4503599627370496) 1 none ((0, 1/4) :: [(100, 1/2)]) 200) = 200 :=
+  C09_inverse_any_factor _ 1 (by decide +kernel) _ _ (by decide +kernel) (by
+    intro c hc; simp at hc; rcases hc with e | e <;> subst e <;> decide +kernel) 200 (by decide +kernel)
+
+/-- what `to_average()` produces (sorted scale, first threshold `≥ 0`, repaired code): its finite thresholds are 0 and the
+thresholds of the scale; each average rate times its threshold is the tax of the scale at that threshold (the AVERAGE rate
+up to there; rate 0 at 0 and at a positive first threshold); the `Inf` bracket carries the rate of the last bracket -/
+theorem C09_to_average_def (t0 r0 : Rat) (rest : Scale) (hs : StrictSorted ((t0, r0) :: rest)) (h0 : 0 ≤ t0) :
+    ∃ a, toAverage ((t0, r0) :: rest) = .ok a ∧
+      (∀ c ∈ a.fin, c.2 * c.1 = calcMR 0 1 none ((t0, r0) :: rest) c.1) ∧
+      (∀ u, hasT a.fin u = (decide (u = 0) || hasT ((t0, r0) :: rest) u)) ∧
+      a.top = some (lastRate r0 rest) := by
+  obtain ⟨a, h1, h2, h3, h4⟩ := toAverage_spec t0 r0 rest hs h0
+  refine ⟨a, h1, ?_, h4, h2⟩
+  intro c hc
+  rw [calcMR_textbook]
+  exact h3 c hc
+
+example : toAverage [(50, 1/8), (100, 1/4), (300, 1/2)] = .ok ⟨[(0, 0), (50, 0), (100, 1/16), (300, 3/16)], some (1/2)⟩ ∧
+    calcMR 0 1 none [(50, 1/8), (100, 1/4), (300, 1/2)] 300 = 3/16 * 300 := by decide +kernel
+
 end OFCore
